@@ -195,12 +195,13 @@ def decryptO (cap nonceLen : Nat) (c : Crypto) (cd : Codec) (P : EncParams) (o :
         let keyName := if o.keyName.isEmpty then m.keyName else o.keyName
         if keyName.isEmpty then some ([], .err .keyMissing)
         else
-          let fk0 := o.unwrap m keyName
-          let fk := if fk0.length ≠ P.fkLen then List.replicate P.fkLen 0 else fk0
+          let fk := effKey true P o m keyName
           match verifyHeader c cd P fk mline macline with
           | some e => some ([], .err e)
           | none =>
-            (processSegmentsO cap (P.segSize + P.overhead) P.maxSeg
-              (decryptSegO c P nonceLen m.cph (payloadKey c P fk m.np) m.np) r').map fun res => (res.out, res.term)
+            if unwrapFailed true P o m keyName then some ([], .err .signature)
+            else
+              (processSegmentsO cap (P.segSize + P.overhead) P.maxSeg
+                (decryptSegO c P nonceLen m.cph (payloadKey c P fk m.np) m.np) r').map fun res => (res.out, res.term)
 
 end Kit.Enc.Chk
